@@ -34,6 +34,7 @@ type PropSpec struct {
 	Assumptions []string
 	Encoded     []string // real functions encoded from SSA (informational; checked to exist)
 	Bounds      map[string]string
+	Level       string // evidence level override
 }
 
 type KnownFinding struct {
@@ -290,6 +291,9 @@ func runCheck(id, tier string) int {
 	level := "other"
 	if len(spec.BMC) > 0 && len(spec.Harnesses) == 0 {
 		level = "model_checking"
+	}
+	if spec.Level != "" {
+		level = spec.Level
 	}
 	ev := Evidence{
 		PropertyID: id, Tier: tier, Seed: seedEnv(), Level: level,
